@@ -1437,6 +1437,8 @@ func c17Replay(out *vh.Out, op string) {
 		c17LongReplay(out, toks[2:])
 	case "hist", "par":
 		c17Replay10(out, toks)
+	case "idem", "normalform", "roundtrip":
+		c17Replay11(out, toks)
 	case "b":
 		args := []string{}
 		for _, t := range toks[3:] {
@@ -1481,6 +1483,7 @@ func TestVerifC17(t *testing.T) {
 	r9 := vh.NewRng(vh.Seed() + 1709)
 	r10 := vh.NewRng(vh.Seed() + 1710)
 	r10p := vh.NewRng(vh.Seed() + 1711)
+	r11 := vh.NewRng(vh.Seed() + 1712)
 	n := vh.N(3000)
 	fns1 := []string{"split", "unquote", "quote", "isascii", "toascii", "tounicode", "forlookup", "cleandomain", "dnsforlookup", "valid"}
 	for i := 0; i < n; i++ {
@@ -1547,6 +1550,11 @@ func TestVerifC17(t *testing.T) {
 		}
 		if i%60 == 11 {
 			c17ParCase(out, r10p)
+		}
+		// round 11: valid names made of long non-Latin labels (A-label form within the DNS limits, U-label form far
+		// bigger) in all their spellings (own forked generator)
+		if i%12 == 2 {
+			c17BigIDNCase(out, r11, i/12)
 		}
 		// the three functions that got a correspondence op in round 9, on the strings of this iteration
 		if i%6 == 1 {
